@@ -3,6 +3,8 @@ package main
 import (
 	"encoding/json"
 	"fmt"
+	"github.com/Trendyol/go-dcp/api"
+	"github.com/Trendyol/go-dcp/models"
 	"math/big"
 	"sort"
 	"strings"
@@ -147,6 +149,37 @@ func metricHistMain(p MetricParams) {
 	check := func() {
 		vrt.Quiesce()
 		c.WaitIdle()
+		// the state endpoint (one API object for the life of the process) tells the same truth
+		if e.API == nil {
+			e.API = newAPI(e.Cfg, e.Client, e.Stream, []prometheus.Collector{}, e.Bus, e.VBD)
+		}
+		if _, body, aerr := api.VerifOffset(e.API.(api.API)); aerr != nil {
+			vrt.Failf("after %v: GET /states/offset failed: %v", hist, aerr)
+		} else {
+			var served map[string]struct {
+				SeqNo      uint64
+				StartSeqNo uint64
+				EndSeqNo   uint64
+				VbUUID     uint64
+			}
+			if jerr := json.Unmarshal([]byte(body), &served); jerr != nil {
+				vrt.Failf("after %v: GET /states/offset returned %q", hist, body)
+			} else {
+				offs, _, _ := e.Stream.GetOffsets()
+				n := 0
+				offs.Range(func(vb uint16, o *models.Offset) bool {
+					n++
+					sv, ok := served[fmt.Sprint(vb)]
+					if !ok || sv.SeqNo != o.SeqNo || uint64(o.VbUUID) != sv.VbUUID {
+						vrt.Failf("after %v: GET /states/offset reports %+v (present=%v) for vb%d, the tracked position is seqNo %d vbUUID %d", hist, sv, ok, vb, o.SeqNo, o.VbUUID)
+					}
+					return true
+				})
+				if len(served) != n {
+					vrt.Failf("after %v: GET /states/offset lists %d vBuckets, %d are tracked", hist, len(served), n)
+				}
+			}
+		}
 		got, err := scrape(e)
 		if err != nil {
 			vrt.Failf("after %v: scrape failed: %v", hist, err)
